@@ -480,6 +480,9 @@ func (cr *checkRun) writeEvidence() {
 		"calls to functions outside the two packages use assumed contracts (DESIGN 4.2); functions with no assumed contract put the caller outside the subset",
 		"package-level variables are read as fixed values (no function of the packages writes them after init; checked by the frame pass of C19)",
 	}, cr.assumptions...)
+	for k, r := range cr.p.contracts.FieldRanges {
+		assumptions = append(assumptions, fmt.Sprintf("assumed range of %s: [%d, %d] — %s", k, r[0], r[1], cr.p.contracts.FieldRangeWhy[k]))
+	}
 	for _, s := range cr.p.contracts.Scan {
 		assumptions = append(assumptions, "contract-file scan hit (assume/admit/trusted): "+s)
 	}
